@@ -179,6 +179,13 @@ def dispatch (f : String) (j : Json) : Option Json :=
         let some fi := getNat o "fst" | return err "no fst"
         let s' := step s (.touch fi)
         return Json.mkObj [("tree", astJson s'.root), ("store", storeJson s'.σ aids0)]
+      | "renumber" =>
+        -- the renumbering loop over the children of the FST `fst` (children carry the slots they occupy in the dump)
+        let some fi := getNat o "fst" | return err "no fst"
+        let some t := ((s.σ.fst fi).a).bind (fun i => findId i s.root) | return err "fst has no ast in tree"
+        let σ' := renumberKids s.σ t.kids
+        return Json.mkObj [("tree", astJson s.root), ("store", storeJson σ' aids0),
+                           ("inv", Json.bool (linkInvB { s with σ := σ' }))]
       | "touch_kids" =>
         -- repaired tail of `_put_slice` on Call / ClassDef / MatchClass: touch every direct child
         let some fi := getNat o "fst" | return err "no fst"
